@@ -81,6 +81,18 @@ def run(tier):
         keys = [("k%d" % i,) for i in range(rng.choice([1, 2, 5, 9]))]
         L = rng.choice([n * 6, n * 7 + 1, 23, 40])
         scen.append(scenario(n, [rng.choice(keys) for _ in range(L)], rng, "mix"))
+    # the application reads and resets the statistics while keys hold partial batches: monitoring calls change nothing of what is buffered
+    for _ in range(40 if quick else 1500):
+        n = rng.choice([2, 3, 4])
+        keys = [("k%d" % i,) for i in range(rng.choice([1, 2, 3]))]
+        sc = scenario(n, [rng.choice(keys) for _ in range(rng.choice([n * 4, n * 5 + 1, 13]))], rng, "mix")
+        ops = []
+        for r in sc["rows"]:
+            ops.append({"op": "emit", "row": r})
+            if rng.random() < 0.3: ops.append({"op": "stats"})
+        sc["ops"] = ops
+        sc["norename"] = True       # (the operations carry the rows as they are)
+        scen.append(sc)
     # HAVING on top of the counting window: a batch the predicate rejects is consumed all the same; the key's next batch starts from empty
     for _ in range(60 if quick else 3000):
         n = rng.choice([2, 3])
